@@ -132,8 +132,19 @@ type restartResult struct {
 	Dump   *wl.Dump
 }
 
-// restartOn runs mkrestart on root for the given bucket specs.
+// restartOn runs mkrestart on root for the given bucket specs. A restart that does not finish
+// within 60 s is tried once more with a 5 min bound (a loaded machine must not look like a hang);
+// only a restart that exceeds both bounds is reported as a hang.
 func restartOn(root string, specs []wl.BucketSpec, phase string) *restartResult {
+	res := restartOnce(root, specs, phase, 60*time.Second)
+	if res.Exit == -9 {
+		hx.R("engine").Add("slow_restart_retried", 1)
+		res = restartOnce(root, specs, phase, 300*time.Second)
+	}
+	return res
+}
+
+func restartOnce(root string, specs []wl.BucketSpec, phase string, bound time.Duration) *restartResult {
 	tmp := filepath.Dir(root)
 	sp := filepath.Join(tmp, "specs-"+phase+".json")
 	op := filepath.Join(tmp, "dump-"+phase+".json")
@@ -167,9 +178,10 @@ func restartOn(root string, specs []wl.BucketSpec, phase string) *restartResult 
 		}
 		res.OK, res.Dump = true, &d
 		return res
-	case <-time.After(60 * time.Second):
+	case <-time.After(bound):
 		cmd.Process.Kill()
-		return &restartResult{Exit: -9, Stderr: "restart did not finish within 60 s (hang)\n" + tail(errb.String(), 2000)}
+		<-done
+		return &restartResult{Exit: -9, Stderr: fmt.Sprintf("restart did not finish within %v (hang)\n", bound) + tail(errb.String(), 2000)}
 	}
 }
 
